@@ -24,10 +24,12 @@ Definition wrap_i16 (z : Z) : Z := (z + 32768) mod 65536 - 32768.
 Definition wrap_i32 (z : Z) : Z := (z + 2147483648) mod 4294967296 - 2147483648.
 Definition wrap_i64 (z : Z) : Z := (z + 9223372036854775808) mod 18446744073709551616 - 9223372036854775808.
 
-Inductive outcome (A : Type) := Val (a : A) | Panic.
-Arguments Val {A}. Arguments Panic {A}.
+(* [Fuel]: a translated loop or recursion used up the fuel the translation
+   gave it (theorems show this unreachable) *)
+Inductive outcome (A : Type) := Val (a : A) | Panic | Fuel.
+Arguments Val {A}. Arguments Panic {A}. Arguments Fuel {A}.
 Definition bind {A B : Type} (o : outcome A) (f : A -> outcome B) : outcome B :=
-  match o with Val a => f a | Panic => Panic end.
+  match o with Val a => f a | Panic => Panic | Fuel => Fuel end.
 
 Definition len {A : Type} (b : list A) : Z := Z.of_nat (List.length b).
 
